@@ -30,10 +30,10 @@ from . import _orbits as O
 LEVEL = "model_checking"
 
 # tolerances (relative to |r| and |v| of the compared state unless stated otherwise)
-TOL_ACOS = 2e-7      # anything that went through the arccos-based extraction of eci2coe
+TOL_ACOS = 5e-7      # anything that went through the arccos-based extraction of eci2coe
 TOL_TIGHT = 1e-11    # forward conversions / arctan2-based paths
 TOL_VALUE = 1e-11    # scale-free element values (e, h, k, p, q, cos i)
-TOL_ANGLE = 2e-7     # angles extracted by arccos; 1e-9 for arctan2 based ones
+TOL_ANGLE = 5e-7     # angles extracted by arccos; 1e-9 for arctan2 based ones
 ARCCOS_RES = 3e-8   # rad: below this arccos(h_z/|h|) cannot tell an inclination from 0 / pi
 EPOCH = datetime(2021, 3, 30, 12, 0, 0)
 
@@ -264,7 +264,7 @@ def _classes_and_config(sink, I, rec, S, x, coe, eqv, cands, inc_spec, hkpq, lam
         _range_check(sink, "ClassicalElements", name, getattr(ce, name), rp)
     if abs(ce.period - S.period) > 1e-11 * S.period:
         sink.fail("ClassicalElements-period", f"period {ce.period} expected {S.period}", rp)
-    if case in ("IE", "EE") and O.ang_diff(ce.mean_anomaly, O.triple(rec["meananom"], ecc)) > 1e-6:
+    if case in ("IE", "EE") and O.ang_diff(ce.mean_anomaly, O.triple(rec["meananom"], ecc)) > 3e-6:
         sink.fail(f"ClassicalElements-mean-anomaly-{case}", f"mean anomaly {ce.mean_anomaly} expected {O.triple(rec['meananom'], ecc)}", rp)
     if not _close(ce.toECI(), x, TOL_ACOS):
         sink.fail(f"{pre}ClassicalElements-roundtrip-{case}", "ClassicalElements.fromECI(x).toECI() is not x", rp)
